@@ -20,7 +20,7 @@ def env_spec(draw, d, N, allow_noise=True, allow_transforms=True, kinds=("generi
             "scale": draw(st.sampled_from([0.3, 0.7, 1.0, 1.5]))}
     if kind == "generic":
         spec["hs"] = [draw(gens.herm_spec(d * e, 2, 2)) for _ in range(nh)]
-        stores = ["rank4", "rank4"] + (["rank4-rot", "rank4-enlarged"] if allow_transforms else [])
+        stores = ["rank4", "rank4"] + (["rank4-rot", "rank4-enlarged", "rank4-in-only", "rank4-out-only"] if allow_transforms else [])
     else:
         spec["ws"] = [[draw(gens.herm_spec(e, 2, 2)) for _ in range(d)] for _ in range(nh)]
         stores = ["rank4", "rank3", "rank3"] + (["rank3-hilbert", "rank4-rot", "rank4-enlarged"] if allow_transforms else [])
@@ -29,7 +29,7 @@ def env_spec(draw, d, N, allow_noise=True, allow_transforms=True, kinds=("generi
         spec["noise"] = [draw(st.sampled_from(["dephase", "damp"])),
                          draw(st.sampled_from([0.1, 0.3, 0.5, 1.0]))]
     spec["store"] = draw(st.sampled_from(stores))
-    if spec["store"] == "rank4-rot":
+    if spec["store"] in ("rank4-rot", "rank4-in-only", "rank4-out-only"):
         spec["rot"] = draw(gens.herm_spec(d * d, 1, 2))
     if spec["store"] == "rank3-hilbert":
         spec["rot"] = draw(gens.unitary_spec(d, allow_identity=False))
@@ -71,6 +71,15 @@ def build_env(spec, d, N, dt=None, name=None, description=None):
         W = expm(-1j * gens.herm(spec["rot"]))
         tensors = A.rotate_rank4(tensors, W)
         tin, tout = W, W.conj().T
+    elif store == "rank4-in-only":
+        # only the input leg is stored rotated: T_in = W, stored M' = W^+ M (per tensor)
+        W = expm(-1j * gens.herm(spec["rot"]))
+        tensors = [np.einsum('ix,abxy->abiy', W.conj().T, M) for M in tensors]
+        tin = W
+    elif store == "rank4-out-only":
+        W = expm(-1j * gens.herm(spec["rot"]))
+        tensors = [np.einsum('abxy,yj->abxj', M, W) for M in tensors]
+        tout = W.conj().T
     elif store == "rank4-enlarged":
         # tensors stored in an isometrically enlarged Liouville basis: V (m x d^2), V^+ V = 1;
         # T_in = V^+ (d^2 x m), T_out = V (m x d^2), stored M' = V M V^+
